@@ -13,6 +13,11 @@ EVID = os.path.join(VERIF, 'evidence')
 OUT = os.path.join(VERIF, 'out')
 
 
+def _loaded_units():
+    from . import facts
+    return set(facts.LOADED_UNITS)
+
+
 class Ctx:
     def __init__(self, prop, tier, only=None):
         self.prop, self.tier = prop, tier
@@ -159,7 +164,7 @@ def write_evidence(ctx, mod, tier, seed, wall, nviol, matched):
         'checker_cmd': './check %s --tier %s' % (ctx.prop, tier),
         'trusted_base': ['clang 14 front end and CFG builder', '/verif/tools/f8facts.cc (fact dump, no rules)',
                          'frozen rule-instance tables in /verif/f8verif/rules/%s.py' % ctx.prop.lower()],
-        'units_parsed': sorted(ctx.units),
+        'units_parsed': sorted({(u[len('/verif/'):] if u.startswith('/verif/') else u) for u in (set(ctx.units) | _loaded_units())}),
         'functions_analysed': len(ctx.functions),
         'functions_analysed_sample': sorted(ctx.functions)[:25],
         'rule_instance_counts': ctx.counts,
